@@ -164,4 +164,19 @@ theorem C06_code_readback_partial (p : Nat) (hp0 : p ≠ 0) (hpb : p + 1024 ≤ 
   simp only [exec, hr, Option.map, hH]
 end
 
+set_option maxRecDepth 16384 in
+theorem find_Can_GetPayload (e : Endian) : findFn (Gen.Cir.prog e) "Avtp_Can_GetPayload" = some Gen.Cir.Avtp_Can_GetPayload := by
+  cases e <;> rfl
+
+/-- **C03 (payload accessor) on the C text**: `Avtp_Can_GetPayload(pdu)` returns the address immediately
+    after the published header length, touches no memory. -/
+theorem C03_code_payload (e : Endian) (rom : Nat → Byte) (glob : String → Nat) (p : Nat)
+    (hp : p + 16 < 18446744073709551616) (st : St) :
+    callFn (mkEnv e rom glob) 3 "Avtp_Can_GetPayload" [p] st = some (p + Spec.can.headerLen, st) := by
+  unfold callFn
+  rw [mkEnv_prog, find_Can_GetPayload]
+  have hH : Spec.can.headerLen = 16 := rfl
+  simp (disch := omega) [Avtp_Can_GetPayload, Avtp_Can_GetPayload_body, Avtp_Can_GetPayload_s0, exec, evalE, csem,
+    Nat.mod_eq_of_lt, hH]
+
 end O1722.Refine
